@@ -355,6 +355,33 @@ pub mod cases {
             checks: &[ItemHas("pubenumT{", "a=0,"), ItemHas("pubenumT{", "b=5,"), ItemHas("pubenumT{", "c=1,"), ItemHas("pubenumT{", "d=2,"),
                       ItemHas("pubenumU{", "a=1,"), ItemHas("pubenumU{", "b=0,"), ItemHas("pubenumU{", "c=2,"),
                       ItemHas("pubenumV{", "a=0,"), ItemHas("pubenumV{", "b=5,"), ItemHas("pubenumV{", "c=1,"), ItemHas("pubenumV{", "d=2,")] },
+        // ---- round 14: the pass that resolves class-field references leaves every other component as it is (a SET OF stays a SET OF)
+        Case { ob: "C02.cases.resolving_a_class_field_reference_keeps_the_kind_of_the_sibling_components", srcs: &["M DEFINITIONS AUTOMATIC TAGS ::= BEGIN
+            ATTRIBUTE ::= CLASS { &id INTEGER UNIQUE, &Type }
+            Item ::= SEQUENCE { x INTEGER }
+            Record ::= SEQUENCE { kind ATTRIBUTE.&id, values SET OF INTEGER, items SET OF Item OPTIONAL, history SEQUENCE OF Item }
+            Entry ::= CHOICE { kind ATTRIBUTE.&id, bag SET OF Item, list SEQUENCE OF Item }
+            END"],
+            checks: &[ItemHas("pubstructRecord{", "pubkind:Integer,pubvalues:SetOf<Integer>,pubitems:Option<SetOf<Item>>,pubhistory:SequenceOf<Item>,"),
+                      ItemHas("pubenumEntry{", "kind(Integer),bag(SetOf<Item>),list(SequenceOf<Item>),")] },
+        // ---- round 14: the literal of a DEFAULT / value governed through two reference hops is typed by the ROOT type (arbitrary precision here)
+        Case { ob: "C06.cases.literal_through_a_chain_of_constrained_references_is_typed_by_the_root_type", srcs: &["M DEFINITIONS AUTOMATIC TAGS ::= BEGIN
+            Wide ::= INTEGER
+            Narrow ::= Wide (0..255)
+            Tiny ::= Narrow (0..10)
+            S ::= SEQUENCE { a Narrow DEFAULT 7, c Tiny DEFAULT 3 }
+            tv Tiny ::= 9
+            END"],
+            checks: &[Has("fns_a_default()->Narrow{Narrow(Wide(Integer::from(7i128)))}"), Has("fns_c_default()->Tiny{Tiny(Narrow(Wide(Integer::from(3i128))))}"),
+                      Has("pubstaticTV:LazyLock<Tiny>=LazyLock::new(||Tiny(Narrow(Wide(Integer::from(9i128)))));")] },
+        // ---- round 14: a DEFAULT that mentions a value dummy denotes the ACTUAL parameter, also when the module defines a value of the dummy's name
+        Case { ob: "C07.cases.default_that_mentions_a_value_dummy_denotes_the_actual_parameter", srcs: &["M DEFINITIONS AUTOMATIC TAGS ::= BEGIN
+            level INTEGER ::= 99
+            flag BOOLEAN ::= FALSE
+            Templ { INTEGER: level, BOOLEAN: flag } ::= SEQUENCE { int-value INTEGER DEFAULT level, bool-value BOOLEAN DEFAULT flag }
+            ImplA ::= Templ { 2, TRUE }
+            END"],
+            checks: &[Has("fnimpl_a_int_value_default()->Integer{Integer::from(2i128)}"), Has("fnimpl_a_bool_value_default()->bool{true}")] },
     ];
 
     pub fn contract_pipeline_cases<C: Ctx>(cx: &mut C) {
